@@ -220,7 +220,25 @@ func histGen(g *G, tier string) []M {
 			op["raw"] = true
 		}
 	}
-	return ops
+	// directed: a sub-graph is extracted and the caller goes on editing it (a node related at the
+	// start node, with the type of an edge that is already there); the list it came from stays as it was
+	extra := []M{}
+	for _, op := range ops {
+		if !g2.Chance(0.12) {
+			continue
+		}
+		r0, _ := asList(op["regs"])[0].(M)
+		es := asList(r0["edges"])
+		if len(es) == 0 {
+			continue
+		}
+		e := es[g2.Int(len(es))].(M)
+		ext := M{"i": []string{"nodeGraph", "nodeSiblings", "nodeDescendants"}[g2.Int(3)], "dst": 1.0, "a": 0.0, "id": e["src"], "depth": 3.0}
+		prog := []any{ext, M{"i": "relateNode", "a": 1.0, "n": M{"id": "fresh-node", "type": 0.0, "a": M{}}, "at": e["src"], "ty": e["ty"]},
+			M{"i": ext["i"], "dst": 2.0, "a": 0.0, "id": e["src"], "depth": 3.0}}
+		extra = append(extra, M{"op": "hist", "regs": Normalize(op["regs"]), "prog": prog, "raw": true})
+	}
+	return append(ops, extra...)
 }
 
 // histOracle: every register stays well-formed along the sequence (C08), given well-formed
@@ -240,9 +258,16 @@ func histOracle(op M, res any, exec func(M) any) []Finding {
 	}
 	// a step may change only the register it writes: results of earlier calls and operands are
 	// never altered by later calls (C11, C12; and the merged result stays what C09/C10 say it is)
+	raw := op["raw"] == true
+	view := func(r any) any {
+		if raw {
+			return structureOf(r)
+		}
+		return CanonResult(r)
+	}
 	prev := []any{}
 	for _, r := range asList(op["regs"]) {
-		prev = append(prev, CanonResult(r))
+		prev = append(prev, view(r))
 	}
 	producer := map[int]string{}
 	reported := false
@@ -253,7 +278,10 @@ func histOracle(op M, res any, exec func(M) any) []Finding {
 		case "union", "intersect", "nodeGraph", "nodeSiblings", "nodeDescendants", "purlType":
 			written = int(asInt(step["dst"]))
 		}
-		cur := asList(st)
+		cur := []any{}
+		for _, r := range asList(st) {
+			cur = append(cur, view(r))
+		}
 		for ri := range cur {
 			if !reported && ri != written && ri < len(prev) && !Equal(prev[ri], cur[ri]) {
 				props := []string{"C12", "C11"}
@@ -288,7 +316,7 @@ func histOracle(op M, res any, exec func(M) any) []Finding {
 	// call: the same step on fresh lists with the same content gives the same result, whatever was
 	// looked up, extracted or edited before
 	states := asList(res)
-	for k := 1; k < len(states) && k < len(asList(op["prog"])); k++ {
+	for k := 1; !raw && k < len(states) && k < len(asList(op["prog"])); k++ {
 		step := asList(op["prog"])[k].(M)
 		var props []string
 		switch asStr(step["i"]) {
@@ -335,6 +363,21 @@ func histOracle(op M, res any, exec func(M) any) []Finding {
 	return out
 }
 
+// structureOf keeps identifiers and kinds of the nodes, the edges and the roots of a register
+func structureOf(r any) any {
+	m, ok := r.(M)
+	if !ok {
+		return r
+	}
+	ns := []any{}
+	for _, n := range asList(m["nodes"]) {
+		if nm, ok := n.(M); ok {
+			ns = append(ns, M{"id": nm["id"], "type": nm["type"]})
+		}
+	}
+	return CanonResult(M{"nodes": ns, "edges": m["edges"], "roots": m["roots"]})
+}
+
 var HistStream = &Stream{
 	Name:   "hist",
 	Gen:    histGen,
@@ -348,5 +391,10 @@ var HistStream = &Stream{
 		return len(kinds) >= 2
 	},
 	OpProps: func(M) []string { return []string{"C08", "C09", "C10", "C12", "C15", "C16"} },
+	// an extraction returns the node objects of the list it was taken from (that is the design: a
+	// sub-graph view); when its result is used uncopied, later in-place merges show through in the
+	// attributes of shared nodes, which the value model does not describe and no property forbids.
+	// Such histories are judged on structure only: identifiers, edges, roots, well-formedness
+	NoModel: func(op M) bool { return op["raw"] == true },
 	Reps:    2,
 }
